@@ -295,8 +295,10 @@ class Ctx:
         dst = self.tmp / "uvdriver"
         try:
             with Locked(LEAN / ".lakelock"):
-                if src.exists():
-                    shutil.copy2(src, dst)
+                if src.exists() and not dst.exists():
+                    tmpname = self.tmp / f"uvdriver.{os.getpid()}.{time.time_ns()}"
+                    shutil.copy2(src, tmpname)
+                    os.replace(tmpname, dst)      # atomic: readers never see a half-copied file
         except OSError:
             pass
         return dst if dst.exists() else src
